@@ -12,6 +12,7 @@ import (
 	"encoding/json"
 	"fmt"
 	"os"
+	"strings"
 	"testing"
 )
 
@@ -42,6 +43,13 @@ type c07In struct {
 
 	// proxy `compression` (Zip) with minLength MinLen; AE = the client's Accept-Encoding
 	// ("" = header absent); RespGz = oracle: gzip of the body the backend's framing carries
+	// Retry: the pool has a retryPolicy (2 attempts) and failureCodes [FirstStatus]; the
+	// backend answers the FIRST request it receives with FirstStatus / FirstBody (after
+	// reading the request body), later ones with the scripted response
+	Retry       bool   `json:"retry"`
+	FirstStatus int    `json:"firstStatus"`
+	FirstBody   []byte `json:"firstBody"`
+
 	Zip    bool   `json:"zip"`
 	MinLen int    `json:"minLen"`
 	AE     string `json:"ae"`
@@ -69,6 +77,7 @@ type c07Obs struct {
 	Heads    int    `json:"heads"`    // request heads the backend received (complete or not)
 	Complete int    `json:"complete"` // completely framed requests the backend received
 	BBody    []byte `json:"bbody"`    // body of the first complete request
+	BBody2   []byte `json:"bbody2"`   // body of the second complete request (retries)
 	Panic    string `json:"panic"`
 
 	// big mode
@@ -92,6 +101,15 @@ func c07BigBody(n int, salt byte) []byte {
 
 func c07PipelineYAML(addr string, pool, proxy int64) string {
 	return c07PipelineYAMLZip(addr, pool, proxy, false, 0)
+}
+
+func c07PipelineYAMLFor(addr string, in *c07In) string {
+	y := c07PipelineYAMLZip(addr, in.Pool, in.Proxy, in.Zip, in.MinLen)
+	if in.Retry {
+		y = strings.Replace(y, "filters:\n", "resilience:\n- name: again\n  kind: Retry\n  maxAttempts: 2\n  waitDuration: 1ms\nfilters:\n", 1)
+		y = strings.Replace(y, "  pools:\n  - ", fmt.Sprintf("  pools:\n  - retryPolicy: again\n    failureCodes: [%d]\n    ", in.FirstStatus), 1)
+	}
+	return y
 }
 
 func c07PipelineYAMLZip(addr string, pool, proxy int64, zip bool, minLen int) string {
@@ -190,9 +208,14 @@ func c07Serve(fr *c07Front, be *c07Backend, in *c07In) (obs c07Obs) {
 		if s.Complete {
 			if obs.Complete == 0 {
 				bbody = s.Body
+			} else if obs.Complete == 1 {
+				obs.BBody2 = append([]byte{}, s.Body...)
 			}
 			obs.Complete++
 		}
+	}
+	if obs.BBody2 == nil {
+		obs.BBody2 = []byte{}
 	}
 	if in.ReqBig > 0 || in.RespBig > 0 {
 		obs.BodyLen, obs.BodyIntact = len(r.Body), bytes.Equal(r.Body, respBody)
@@ -217,7 +240,11 @@ func c07Run(in c07In) (obs c07Obs) {
 	}()
 	be := c07StartBackend(c07Script(&in))
 	defer be.Close()
-	fr := c07StartFront(c07ServerYAML(in.Srv, in.Path), c07PipelineYAMLZip(be.Addr(), in.Pool, in.Proxy, in.Zip, in.MinLen))
+	if in.Retry {
+		first := fmt.Sprintf("HTTP/1.1 %d First\r\nContent-Type: text/plain\r\nContent-Length: %d\r\n\r\n%s", in.FirstStatus, len(in.FirstBody), in.FirstBody)
+		be.SetRawSeq([][]byte{[]byte(first), c07Script(&in)})
+	}
+	fr := c07StartFront(c07ServerYAML(in.Srv, in.Path), c07PipelineYAMLFor(be.Addr(), &in))
 	defer fr.Close()
 	return c07Serve(fr, be, &in)
 }
@@ -394,6 +421,27 @@ func c07GenZipLying(r *vfRand) (in c07In) {
 	return
 }
 
+// c07GenRetry: a pool with a retry policy in front of a backend that fails the first
+// attempt (a failure code) after it has read the request body; buffered requests are
+// retried with the same body, streamed ones (limit -1) cannot be.
+func c07GenRetry(r *vfRand) (in c07In) {
+	in.Srv = int64(r.PickInt(-1, -1, -1, 0, 64))
+	if r.Chance(1, 4) {
+		in.Srv, in.Path = int64(r.PickInt(0, 16)), -1
+	}
+	n := r.PickInt(0, 1, 17, 64, 300, 5000)
+	in.ReqBody = c07Bytes(r, n)
+	if r.Bool() {
+		in.ReqEnc, in.ReqDecl = "cl", n
+	} else {
+		in.ReqEnc, in.ReqChunk, in.ReqTerm = "chunked", r.PickInt(7, 100, 4096), true
+	}
+	in.Retry, in.FirstStatus, in.FirstBody = true, 503, []byte("first attempt failed")
+	m := r.PickInt(0, 2, 40)
+	in.RespStatus, in.RespEnc, in.RespDecl, in.RespBody = r.PickInt(200, 200, 201, 404), "cl", m, c07Bytes(r, m)
+	return
+}
+
 func c07RespComplete(in *c07In) bool {
 	switch in.RespEnc {
 	case "cl":
@@ -527,6 +575,8 @@ func TestVerifC07(t *testing.T) {
 		in := c07Gen(root.Fork(i), adv)
 		if i%12 == 7 {
 			in = c07GenZipLying(root.Fork(i))
+		} else if i%10 == 9 {
+			in = c07GenRetry(root.Fork(i))
 		}
 		out.Emit(vfCase{ID: fmt.Sprintf("%s-body-%d", src, i), Src: src, Grp: "body", In: in, Obs: c07Run(in)})
 	}
